@@ -88,6 +88,7 @@ def run(mut, tier='quick', props=None):
         for prop in (props or default_props):
             env = dict(os.environ)
             env['VF_REPO'] = tmp
+            env['VF_EVIDENCE_DIR'] = os.path.join(tmp, 'evidence')
             p = subprocess.run([os.path.join(common.VERIF, 'check'), prop, '--tier', tier], env=env, stdout=subprocess.PIPE,
                                stderr=subprocess.STDOUT, timeout=3600)
             text = p.stdout.decode('utf-8', 'replace')
